@@ -21,7 +21,7 @@ import (
 
 // Part B: monitor-only histories over the whole FSM command set (no Lean lines).
 
-// xnext picks the next command of a Part B history. ACL, autopilot, feature-gate, federation-state and
+// xnext picks the next command of a Part B history. ACL, autopilot, feature-gate and
 // resource commands are left out (no query of the C06 set reads them).
 func (g *gen) xnext(profile string) entry {
 	r := g.r
@@ -48,10 +48,10 @@ func (g *gen) xnext(profile string) entry {
 	case "peering":
 		ws = []w{{50, g.peering}, {15, g.register}, {8, ce}, {5, g.deregister}, {4, g.vipFlag}}
 	case "ca":
-		ws = []w{{45, g.connectCA}, {5, g.caLeaf}, {10, g.systemMetadata}, {10, g.register}, {10, ce}, {10, g.intention}, {6, g.coordinates}}
+		ws = []w{{45, g.connectCA}, {5, g.caLeaf}, {10, g.systemMetadata}, {10, g.register}, {10, ce}, {10, g.intention}, {6, g.coordinates}, {8, g.federationState}}
 	default:
 		ws = []w{{18, g.register}, {7, g.deregister}, {10, g.kvs}, {6, g.sessionOp}, {6, g.txn}, {2, g.tombstoneReap}, {5, g.coordinates}, {5, g.preparedQuery},
-			{3, g.systemMetadata}, {2, g.vipFlag}, {6, g.connectCA}, {12, ce}, {6, g.intention}, {8, g.peering}, {3, g.manualVIP}}
+			{3, g.systemMetadata}, {2, g.vipFlag}, {6, g.connectCA}, {12, ce}, {6, g.intention}, {8, g.peering}, {3, g.manualVIP}, {3, g.federationState}}
 	}
 	total := 0
 	for _, x := range ws {
